@@ -3,6 +3,15 @@
 #![allow(clippy::all)]
 
 mod c01;
+mod c13;
+mod c14;
+mod c15;
+mod conv_gen;
+mod c16;
+mod c17;
+mod swz_gen;
+mod elem;
+mod ints;
 mod lanes;
 
 use vcommon::mon::Args;
@@ -10,12 +19,25 @@ use vcommon::mon::Args;
 fn main() {
     let args = Args::parse();
     let mut mon = args.monitor();
+    let r = std::panic::catch_unwind(std::panic::AssertUnwindSafe(|| run(&args, &mut mon)));
+    if r.is_err() {
+        eprintln!("HARNESS PANIC escaped every monitor: {}", vcommon::mon::last_panic());
+        std::process::exit(3);
+    }
+    args.finish(&mon);
+}
+
+fn run(args: &Args, mon: &mut vcommon::mon::Monitor) {
     match args.prop.as_str() {
-        "C01" => c01::run(&mut mon),
+        "C01" => c01::run(mon),
+        "C13" => c13::run(mon),
+        "C14" => c14::run(mon),
+        "C15" => c15::run(mon),
+        "C16" => c16::run(mon),
+        "C17" => c17::run(mon),
         p => {
             eprintln!("e_lanes: unknown property {}", p);
             std::process::exit(2);
         }
     }
-    args.finish(&mon);
 }
